@@ -36,7 +36,7 @@ META = {
     "design_ref": "7/C40",
     "shards": {"quick": 2, "thorough": 16},
     "budget_s": {"quick": 45, "thorough": 300},
-    "min_evals": {"quick": 3000, "thorough": 100000},
+    "min_evals": {"quick": 3000, "thorough": 60000},
     "deciding": ["params.views", "params.trainable", "bind.identity", "bind.exact", "copy.independent", "wiremap.preserves", "expand.trainable"],
     "rule": "case = one history on one generated circuit; distinct = deep structural fingerprint of the circuit + operation log; non-trivial = "
             "at least 3 parameters, a proper non-empty trainable subset at some point, and at least one parameter living in an observable or a nested operator",
@@ -572,7 +572,7 @@ def run(ctx):
     from pv.gen import num
 
     warnings.filterwarnings("ignore")
-    N = ctx.n(700, 60000)
+    N = ctx.n(700, 48000)
     indices = range(ctx.shard, N * ctx.nshards, ctx.nshards)
     if ctx.only_case is not None:
         indices = [ctx.only_case]
